@@ -111,7 +111,16 @@ defjvp(anp.flipud, "same")
 defjvp(anp.fliplr, "same")
 defjvp(anp.rot90, "same")
 defjvp(anp.trace, "same")
-defjvp(anp.full, "same", argnums=(1,))
+defjvp(
+    anp.full,
+    # a conversion to an integer or boolean type is piecewise constant
+    lambda g, ans, shape, fill_value, dtype=None: (
+        anp.full(shape, g, dtype)
+        if dtype is None or onp.issubdtype(onp.dtype(dtype), onp.inexact)
+        else vspace(ans).zeros()
+    ),
+    argnums=(1,),
+)
 defjvp(anp.triu, "same")
 defjvp(anp.tril, "same")
 defjvp(anp.swapaxes, "same")
